@@ -345,6 +345,19 @@ def finish(rep, build, level='proof', rule='', assumptions=None, technique_note=
     obligations = len(thms)
     discharged = sum(1 for n, a in thms if assumptions_ok(a)) if proof_ok else 0
     proof_fine = proof_ok and not bad_assum and not audit and build.ok_model and build.translate_ok
+    coqchk_info = None
+    if rep.tier == 'thorough' and proof_fine and not SEARCH_MODE:
+        # independent re-check of the compiled property file and everything it depends on, with the axiom report
+        rc, out = sh(f'timeout 2400 coqchk -silent -o -Q . WalModel WalModel.props.{pid}', cwd=COQ, timeout=2500)
+        flat = ' '.join(out.split())
+        if rc == 0 and 'Axioms: <none>' in flat and 'type-in-type: <none>' in flat and 'unsafe (co)fixpoints: <none>' in flat \
+                and 'positivity is assumed: <none>' in flat:
+            coqchk_info = {'ran': True, 'ok': True, 'axioms': '<none>'}
+        elif rc == 124:
+            coqchk_info = {'ran': False, 'ok': None, 'note': 'coqchk timed out (not a verdict)'}
+        else:
+            coqchk_info = {'ran': True, 'ok': False, 'output_tail': out[-1500:]}
+            proof_fine = False
 
     exit_code = 0
     lines = []
@@ -368,6 +381,7 @@ def finish(rep, build, level='proof', rule='', assumptions=None, technique_note=
             why['correspondence'] = rep.mismatches[:5]
         if not proof_fine:
             why['proof'] = {
+                'coqchk': coqchk_info,
                 'props_compiled': proof_ok, 'failed_files': build.failed_files,
                 'theorems': thms, 'audit_hits': audit, 'model_built': build.ok_model,
                 'translate_ok': getattr(build, 'translate_ok', False),
@@ -400,6 +414,8 @@ def finish(rep, build, level='proof', rule='', assumptions=None, technique_note=
         'generated_v_changed_this_run': build.generated_changed,
         'audit_hits': audit,
     }
+    if coqchk_info is not None:
+        cov['coqchk'] = coqchk_info
     cov.update(rep.extra)
     ev = {
         'property_id': pid, 'tier': rep.tier, 'seed': rep.seed, 'level': level,
